@@ -73,4 +73,6 @@ Encode(c) ==
     [] c.k = "vercheck" -> [Raw0 EXCEPT !.tag = 11, !.addr = <<0, c.f>>, !.cnt = c.n]
     [] c.k = "ks_to_nv" -> [Raw0 EXCEPT !.tag = 12, !.flags = c.m[2] * 256, !.addr = c.a]
     [] c.k = "ks_from_nv" -> [Raw0 EXCEPT !.tag = 13, !.flags = c.m[2] * 256, !.addr = c.a]
+    [] c.k = "nop"     -> Raw0
+    [] c.k = "reset"   -> [Raw0 EXCEPT !.tag = 8]
 =============================================================================
